@@ -5,7 +5,7 @@ from .. import cfg as cfgmod
 from .. import roles
 from ..core import Undecided, node_text
 from ..idioms import is_false, is_name, is_true
-from ..model import call_name, dotted, enclosing_func, is_none, names_in, walk_no_nested, func_params
+from ..model import NOCONST, call_name, const_value, dotted, enclosing_func, is_none, names_in, walk_no_nested, func_params
 
 ADAPTERS = {'rbql_csv', 'csv_utils', 'rbql_pandas', 'rbql_sqlite', 'rbql_main', 'rbql_ipython'}
 
@@ -268,3 +268,83 @@ def rule_if_df(cx, rep, port='py'):
     wr = p.func('rbql_pandas', 'DataframeWriter.write')
     ok = any(isinstance(c, ast.Call) and isinstance(c.func, ast.Attribute) and c.func.attr == 'append' and dotted(c.func.value) == 'self.output_rows' for c in walk_no_nested(wr))
     rep.decide(ok, 'DataframeWriter.write', wr, 'every record is appended to output_rows', 'records are not all appended to output_rows')
+
+
+def _truth_tested(tree):
+    """expressions whose *truthiness* is tested: conditions of if/while/conditional expressions/asserts, operands of not/and/or"""
+    out = []
+
+    def cond(e):
+        if isinstance(e, ast.BoolOp):
+            for v in e.values:
+                cond(v)
+        elif isinstance(e, ast.UnaryOp) and isinstance(e.op, ast.Not):
+            cond(e.operand)
+        else:
+            out.append(e)
+    for n in ast.walk(tree):
+        if isinstance(n, (ast.If, ast.While, ast.IfExp, ast.Assert)):
+            cond(n.test)
+        elif isinstance(n, ast.comprehension):
+            for i in n.ifs:
+                cond(i)
+    return out
+
+
+def rule_cl_presence(cx, rep, port='py'):
+    """an option to which the CLI itself assigns a falsy value as a legal setting (`args.delim = ''` for monocolumn) is tested for
+    presence (`is None`), never for truthiness: otherwise the legal value is treated as missing and the CLI refuses a query that
+    the library entry points run"""
+    p = cx.py
+    mod = p.modules['rbql_main']
+    falsy = {}
+    for n in ast.walk(mod):
+        if isinstance(n, ast.Assign) and len(n.targets) == 1 and isinstance(n.targets[0], ast.Attribute) and dotted(n.targets[0].value) == 'args':
+            v = const_value(n.value)
+            if v is not NOCONST and v is not None and v is not False and not v:
+                falsy.setdefault(n.targets[0].attr, n)
+    rep.require_count('options with a falsy legal value', len(falsy), 1, (p.files['rbql_main'], 0))
+    tested = [e for e in _truth_tested(mod) if isinstance(e, ast.Attribute) and dotted(e.value) == 'args' and e.attr in falsy]
+    for attr, site in sorted(falsy.items()):
+        bad = [e for e in tested if e.attr == attr]
+        pres = [n for n in ast.walk(mod) if isinstance(n, ast.Compare) and dotted(n.left) == 'args.' + attr and isinstance(n.ops[0], (ast.Is, ast.IsNot)) and is_none(n.comparators[0])]
+        if bad:
+            fd = enclosing_func(bad[0])
+            rep.violated('args.{} presence tests'.format(attr), bad[0], '`args.{}` is tested for truthiness in {} although line {} assigns it the legal value {!r}: that setting is treated as "option missing"'.format(attr, fd.name if fd is not None else '<module>', site.lineno, const_value(site.value)))
+        else:
+            rep.holds('args.{} presence tests'.format(attr), site, '{} presence tests, all `is None` / `is not None`'.format(len(pres)))
+
+
+def rule_if_regfresh(cx, rep, port):
+    """every table registry hands out a *new* iterator on each request: an iterator that is cached and handed out twice is shared by
+    the input side and the join side of a self join (one cursor, one variable prefix), so that front-end answers differently"""
+    p = cx.port(port)
+    classes = set(k.split(':')[1] for k in p.classes) if isinstance(p.classes, dict) else set()
+    n = 0
+    for key, fd in sorted(p.funcs.items()):
+        m, q = key.split(':')
+        if not q.endswith('.get_iterator_by_table_id'):
+            continue
+        rets = [r for r in walk_no_nested(fd) if isinstance(r, ast.Return) and r.value is not None and not is_none(r.value)]
+        if not rets:
+            continue   # interface stub
+        n += 1
+
+        def is_ctor(e):
+            return isinstance(e, ast.Call) and (dotted(e.func) or '').split('.')[-1] in classes
+        bad = None
+        for r in rets:
+            v = r.value
+            if is_ctor(v):
+                continue
+            d = dotted(v)
+            if d is None:
+                bad = (r, node_text(v, 60))
+                break
+            defs = [a for a in walk_no_nested(fd) if isinstance(a, (ast.Assign, ast.AugAssign)) and any(dotted(t) == d for t in (a.targets if isinstance(a, ast.Assign) else [a.target]))]
+            nd = [a for a in defs if not is_ctor(a.value)]
+            if not defs or nd:
+                bad = (r, node_text(nd[0].value, 60) if nd else d + ' (not defined in this call)')
+                break
+        rep.decide(bad is None, '{}.{}'.format(m, q), fd, 'every returned iterator is constructed by this call', 'the registry can return `{}`, an iterator that was not constructed by this call: two requests (input side and join side of a self join, or two queries) then share one cursor/position and one variable prefix'.format(bad[1] if bad else ''))
+    rep.require_count('table registries', n, 3 if port == 'py' else 2, (p.files[cx.engine_mod(port)], 0))
